@@ -40,7 +40,7 @@ def run(chk):
     chk.coverage["rule"] = (
         "front-profile descriptions in which one field type, at a random nesting depth (inside arrays / dynamic arrays / optionals), is replaced by a "
         "reference that is undeclared, forward (declared later), to the enclosing struct itself, or valid (struct or enum, declared earlier, also "
-        "through a module imported earlier); accepted trees: FcpV2.get_type is called on every reference; rejected ones: the rendered diagnostic must "
+        "through a module imported earlier), or that names a user type spelled like a built-in prefix (i2c_status, u8Mode, stream: the tree must hold that reference or the text must be rejected); accepted trees: FcpV2.get_type is called on every reference; rejected ones: the rendered diagnostic must "
         "name the type and the enclosing struct; all outcomes compared in Coq with the model; non-trivial = an injected reference")
     oracle = printer.float_oracle(None)
     cases, meta, fails = [], [], []
@@ -49,7 +49,9 @@ def run(chk):
         for k in range(n):
             items = printer.gen_items(chk.rng, allow_services=False)
             files = {}
-            mode = chk.rng.choice(["valid", "undeclared", "forward", "self", "via-module", "valid", "via-nested-modules", "module-uses-outside-type", "binding-name-as-type"])
+            mode = chk.rng.choice(["valid", "undeclared", "forward", "self", "via-module", "valid", "via-nested-modules", "module-uses-outside-type", "binding-name-as-type",
+                                   "builtin-prefixed-name"])
+            prefixed = None
             structs = [i for i, it in enumerate(items) if it[0] == "struct"]
             expect_err = None
             if mode == "via-module":
@@ -111,6 +113,17 @@ def run(chk):
                 mnames = [it[1] for it in a_items + b_items if it[0] in ("struct", "enum")] + (["API_S"] if api_fields else [])
                 cand = [i for i, it in enumerate(items) if it[0] == "struct"]
                 si, name = (chk.rng.choice(cand), chk.rng.choice(mnames)) if cand and mnames else (None, None)
+            elif mode == "builtin-prefixed-name" and structs:
+                # a user type whose name begins like a built-in one (i2c_status, u8Mode, stream): the lexer may split it; whatever the
+                # front end does with it, an ACCEPTED tree must hold a reference to that type (of the right kind) - or the type must be
+                # reported; it must not silently become i2 / u8 / str
+                si = chk.rng.choice(structs)
+                name = chk.rng.choice(["i2c_status", "u8Mode", "stream", "f32x", "u16_t", "i64Counter", "f64_gain"])
+                prefixed = (name, items[si][1], chk.rng.random() < 0.6)
+                if prefixed[2]:
+                    items.insert(si, ("enum", name, [("V0", 0), ("V1", 1)]) if chk.rng.random() < 0.5 else
+                                 ("struct", name, [{"name": "x", "id": 0, "type": ("u", 8), "params": []}]))
+                    si += 1
             elif structs:
                 si = chk.rng.choice(structs)
                 if mode == "undeclared":
@@ -132,7 +145,9 @@ def run(chk):
                 it = items[si]
                 fields = copy.deepcopy(it[2])
                 f = chk.rng.choice(fields)
-                slot = chk.rng.choice(type_slots(f["type"]))
+                slot = chk.rng.choice(type_slots(f["type"])) if prefixed is None else ()
+                if prefixed is not None:
+                    prefixed = prefixed + (f["name"],)
                 f["type"] = put(f["type"], slot, ("ref", name))
                 items[si] = ("struct", it[1], fields)
                 chk.hist("depth", len(slot))
@@ -141,7 +156,17 @@ def run(chk):
             cases.append(front_run.case_term(files, "main.fcp", out, oracle)); meta.append(files["main.fcp"])
             chk.count(files["main.fcp"], nontrivial=name is not None, sample={"source": files["main.fcp"][:500], "mode": mode, "outcome": out[0]})
             chk.hist("mode", mode); chk.hist("outcome", out[0])
-            if expect_err is not None:
+            if prefixed is not None:
+                if out[0] == "raise":
+                    fails.append({"kind": "exception-escaped", "source": files["main.fcp"], "files": dict(files), "detail": str(out[1])[:300]})
+                elif out[0] == "ok":
+                    from fcp.specs import type as T0
+                    fld = next((x for st in out[1].structs if st.name == prefixed[1] for x in st.fields if x.name == prefixed[3]), None)
+                    if fld is None or type(fld.type) not in (T0.StructType, T0.EnumType) or fld.type.name != prefixed[0]:
+                        fails.append({"kind": "reference-to-a-user-type-silently-became-a-built-in-type", "source": files["main.fcp"], "files": dict(files),
+                                      "type": prefixed[0], "declared": prefixed[2], "struct": prefixed[1], "field": prefixed[3],
+                                      "field_type_in_the_tree": None if fld is None else repr(fld.type)})
+            elif expect_err is not None:
                 if out[0] != "err":
                     fails.append({"kind": "dangling-reference-accepted" if out[0] == "ok" else "exception-escaped", "source": files["main.fcp"], "files": dict(files),
                                   "type": expect_err[0], "struct": expect_err[1], "detail": str(out[1])[:300]})
